@@ -131,12 +131,12 @@ theorem takeWhile_append_stop {p : Char → Bool} : ∀ (s t : Str), (∀ x ∈ 
     | nil => simp
     | cons d t =>
       have := ht d (by simp)
-      simp [List.takeWhile_cons, List.dropWhile_cons, this]
+      simp [this]
   | cons a s ih =>
     intro t hs ht
     have ha := hs a (by simp)
     obtain ⟨h1, h2⟩ := ih t (fun x hx => hs x (by simp [hx])) ht
-    simp [List.takeWhile_cons, List.dropWhile_cons, ha, h1, h2]
+    simp [ha, h1, h2]
 
 theorem parse_render (conv : Str) (hpct : '%' ∉ conv) : ∀ (segs : List Seg), wfSegs conv segs = true →
     ∀ fuel, segs.length < fuel → parse conv fuel (render segs) = some segs := by
@@ -186,7 +186,7 @@ theorem parse_render (conv : Str) (hpct : '%' ∉ conv) : ∀ (segs : List Seg),
       obtain ⟨h1, h2⟩ := takeWhile_append_stop (p := fun x => !strchrHit conv x) b (d :: render rest)
         (fun x hx => by have := hb x hx; simp [strchrHit, this.1, this.2])
         (fun e he => by simp at he; subst he; simp [strchrHit, hd])
-      simp only [Seg.text, List.cons_append, List.append_assoc, List.singleton_append, List.nil_append]
+      simp only [Seg.text, List.cons_append, List.append_assoc, List.nil_append]
       simp only [parse, if_true, hhead, if_false, h1, h2, hd0, ihr, Option.map_some]
 
 end Cello.Fmt
